@@ -903,6 +903,13 @@ def gen_sim_case(r):
         feats.append("glob-unjustified")
         plan.append(A.glob("src/*.txt"))
         project.files["src/stray.txt"] = "stray\n"
+    if r.random() < 0.15:  # more root causes than the report ranks or shows: dead-end inputs and missing resources
+        feats.append("many-roots")
+        for i in range(r.randint(21, 34)):
+            if r.random() < 0.75:
+                plan.append(A.step(f"wants {i}", inp=[f"src/missing_{i}.txt"], out=[f"out/m{i}.txt"]))
+            else:
+                plan.append(A.step(f"needs {i}", inp=[], out=[f"out/m{i}.txt"], resources={f"unit{i}": 1}))
     project.files["plan.py"] = __import__("simdirector").plan_file(plan, note="c19")
     opts = {"njob": r.randint(1, 3), "keep_going": r.random() < 0.5}
     res = []
